@@ -8,3 +8,4 @@ import Gittuf.Proofs.SigCompleteGit
 #print axioms Gittuf.C05_complete_env
 #print axioms Gittuf.C05_complete
 #print axioms Gittuf.disjointKeys_of_B
+#print axioms Gittuf.C05_git_signature_monotone
